@@ -27,7 +27,8 @@ def main():
     rs = sys.argv[1:] or sorted(os.listdir(os.path.join(HERE, "benign")))
     sids = sorted(x for x in os.listdir(os.path.join(HERE, "seeded")) if os.path.isdir(os.path.join(HERE, "seeded", x)))
     # changes written against a refactored baseline are tied to that baseline (seeded_run applies it)
-    sids = [x for x in sids if not json.load(open(os.path.join(HERE, "seeded", x, "meta.json"))).get("base")]
+    metas = {x: json.load(open(os.path.join(HERE, "seeded", x, "meta.json"))) for x in sids}
+    sids = [x for x in sids if not metas[x].get("base") and not metas[x].get("superseded")]
     jobs = [(r, s) for r in rs for s in sids]
     with ThreadPoolExecutor(max_workers=14) as ex:
         res = list(ex.map(one, jobs))
